@@ -173,6 +173,21 @@ def gen_hier_program(rnd, tag, order, spelling, with_grand):
     return steps
 
 
+def gen_redefine_program(rnd, tag, spelling):
+    """A class, every operator on it (default class names); then ANOTHER class of the same name (other fields) and
+    every operator again: what was made for the first class must not be handed out for the second."""
+    names = D.FIELD_NAMES
+    steps = []
+    for rnd_i in range(2):
+        st = D.gen_stmt(rnd, "Src" + tag, [rnd.choice(["Structure", "ImmutableStructure"])],
+                        [names[0]] + (names[1:3] if rnd_i == 0 else names[3:5]))
+        steps.append(["def", st])
+        for opn in (OPS if spelling == "subscript" else ["omit", "pick"]):
+            op = [opn] + ([[names[0]]] if opn in ("omit", "pick") else [])
+            steps.append(["derive", "Src" + tag, op, None] + (["method"] if spelling == "method" else []))
+    return steps
+
+
 # ------------------------------------------------------------------ class-level options: every explicit value, own /
 # inherited / overriding, under every process-wide default
 
@@ -191,6 +206,31 @@ def set_option(stmt, opt, val):
         stmt["attrs"] = [a for a in stmt["attrs"] if a[0] != opt] + [[opt, "bool" if val else "boolf"]]
 
 
+_FALSY = {"num": ("int", 0), "str": ("str", ""), "bool": ("bool", False)}
+_SCRATCH_NS = []
+
+
+def falsy_defaulted_member(rnd, name):
+    """A field declaration whose default is a falsy value the field accepts (checked on the implementation)."""
+    if not _SCRATCH_NS:
+        _SCRATCH_NS.append(D.fresh_ns())
+    for _ in range(12):
+        f = D.gen_field(rnd)
+        v = _FALSY.get(f["t"])
+        if v is None:
+            continue
+        m = {"name": name, "kind": "decl", "field": f, "imm": False, "style": "ann", "kwd": None, "eqd": None}
+        m["kwd" if rnd.random() < 0.4 else "eqd"] = ["lit", v]
+        probe = {"name": "FalsyProbe", "bases": ["Structure"], "members": [m], "required": None, "optional": None,
+                 "additional": None, "ignore_none": None, "attrs": [], "keys_of": []}
+        try:
+            exec(D.stmt_src(probe), dict(_SCRATCH_NS[0]))
+        except Exception:  # noqa
+            continue
+        return m
+    return None
+
+
 def gen_option_program(rnd, tag, shape, base_kind):
     """A source with a required, an optional and a defaulted field whose class-level option `opt` is set to `val`
     in its own body / only in its base class / in its own body against the opposite value in the base class;
@@ -204,7 +244,10 @@ def gen_option_program(rnd, tag, shape, base_kind):
             if any(m["field"]["t"] in D.DEFAULTABLE for m in ms[-1:]):
                 break
         last = ms[-1]
-        if last["field"]["t"] in D.DEFAULTABLE:
+        fz = falsy_defaulted_member(rnd, last["name"]) if rnd.random() < 0.5 else None
+        if fz is not None:
+            ms[-1] = last = fz            # a default that is a falsy value (0, '', False): still a default
+        elif last["field"]["t"] in D.DEFAULTABLE:
             d = D.gen_default(rnd, last["field"])
             if d is not None:
                 last["eqd"] = d
@@ -404,6 +447,8 @@ def behaviour_clauses(rnd, S, Dc, fmap_s, op, n_vals, rep, report, step=None):
                     os_ = outcome(S, ks, n)
                     od = outcome(Dc, kd, n)
                 else:
+                    if base[n][0] == "none" and ((n in sreq) != (n in dreq)):
+                        continue   # the instance starts from None for this field: follows requiredness, as above
                     try:
                         pv2 = G.unreify(v, {})
                     except Exception:  # noqa
@@ -412,7 +457,7 @@ def behaviour_clauses(rnd, S, Dc, fmap_s, op, n_vals, rep, report, step=None):
                     od = assign_outcome(Dc, kd, n, pv2)
                 n_eval += 1
                 if os_ != od:
-                    key = none_key(S, Dc, op) if v[0] == "none" else None
+                    key = none_key(S, Dc, op) if (v[0] == "none" or (mode == "assign" and base[n][0] == "none")) else None
                     if key is None:
                         key = "C12/behaviour/%s/%s/%s%s" % (op[0], f["t"], v[0], "" if mode == "init" else "/assign")
                     report(key, "field %r %s %s: source %s -> %s, derived %s -> %s" % (
@@ -447,39 +492,58 @@ def class_probe(rnd_seed, cls, fmap):
 
 # ------------------------------------------------------------------ one program
 
-def program_text(prog, cfg):
-    return D.IMPORTS + cfg_src(cfg) + "\n" + "\n".join(D.step_src(st) for st in prog)
+def program_text(prog, cfg, cfg_use=None):
+    tail = ""
+    if cfg_use:
+        tail = "\n# the process-wide defaults change after the classes were made\n" + "".join(
+            "TypedPyDefaults.%s = %r\n" % (k, v) for k, v in sorted(cfg_use.items()) if (cfg or DEFAULT_CFG).get(k) != v)
+        if "import TypedPyDefaults" not in cfg_src(cfg):
+            tail = "from typedpy.structures import TypedPyDefaults\n" + tail
+    return D.IMPORTS + cfg_src(cfg) + "\n" + "\n".join(D.step_src(st) for st in prog) + tail
 
 
-def check_program(rnd, steps, rep, stream, n_vals, bad_last=False, cfg=None):
+def check_program(rnd, steps, rep, stream, n_vals, bad_last=False, cfg=None, cfg_use=None):
     """Runs a program on the implementation under the process-wide defaults `cfg`, evaluates the
-    implementation-side clauses.  Returns (prog, outcomes, findings, ns) — findings = [(key, what, data)]."""
+    implementation-side clauses (under `cfg_use` if given: the defaults as they are when the classes are USED).
+    Returns (prog, outcomes, findings, ns) — findings = [(key, what, data)]."""
     with with_globals(cfg):
-        return _check_program(rnd, steps, rep, stream, n_vals, bad_last, cfg)
+        return _check_program(rnd, steps, rep, stream, n_vals, bad_last, cfg, cfg_use)
 
 
-def _check_program(rnd, steps, rep, stream, n_vals, bad_last, cfg):
+def _check_program(rnd, steps, rep, stream, n_vals, bad_last, cfg, cfg_use):
+    with with_globals(cfg):
+        prog, outs, ns = run_steps(rnd, steps, bad_last=bad_last)
+    with with_globals(cfg_use or cfg):
+        return _clauses(rnd, prog, outs, ns, rep, stream, n_vals, cfg, cfg_use)
+
+
+def _clauses(rnd, prog, outs, ns, rep, stream, n_vals, cfg, cfg_use):
     findings = []
-    prog, outs, ns = run_steps(rnd, steps, bad_last=bad_last)
     fmaps = D.field_ast_map(prog, ns)
-    src_text = program_text(prog, cfg)
+    src_text = program_text(prog, cfg, cfg_use)
 
     def report(key, what, data):
-        findings.append((key, what, dict(data, python=src_text, program=prog, globals=dict(cfg or {}))))
+        findings.append((key, what, dict(data, python=src_text, program=prog, globals=dict(cfg or {}),
+                                         globals_use=dict(cfg_use) if cfg_use else None)))
 
     # source-unchanged: fingerprint every class right after the program and compare with a fingerprint
     # of the same class object re-created in a fresh namespace WITHOUT the later steps
     first_derive = next((i for i, st in enumerate(prog) if st[0] == "derive"), None)
     if first_derive is not None:
         ns0 = D.fresh_ns()
-        for st in prog[:first_derive]:
-            try:
-                exec(D.step_src(st), ns0)
-            except Exception:  # noqa
-                pass
+        with with_globals(cfg):
+            for st in prog[:first_derive]:
+                try:
+                    exec(D.step_src(st), ns0)
+                except Exception:  # noqa
+                    pass
+        n_defs = {}
+        for st in prog:
+            if st[0] == "def":
+                n_defs[st[1]["name"]] = n_defs.get(st[1]["name"], 0) + 1
         for st in prog[:first_derive]:
             nm = D.step_name(st)
-            if st[0] == "def" and nm in ns and nm in ns0:
+            if st[0] == "def" and nm in ns and nm in ns0 and n_defs.get(nm) == 1:
                 p_after = class_probe(12345, ns[nm], fmaps.get(nm, {}))
                 p_fresh = class_probe(12345, ns0[nm], fmaps.get(nm, {}))
                 rep.count(stream + ":source-unchanged", 1)
@@ -679,6 +743,12 @@ def run(rep, tier):
             rep.stat("hierarchy-orders", "order:%s/%s" % ("".join(map(str, order)), spelling))
             add_case(prog, outs, fnd, cfg, "hierarchy-orders")
             k += 1
+    for j in range(4 if quick else 16):
+        cfg = dict(CONFIGS4[j % 4])
+        steps = gen_redefine_program(rnd, "r%d" % j, "subscript" if j % 2 == 0 else "method")
+        prog, outs, fnd, _ = check_program(rnd, steps, rep, "hierarchy-orders", 2, cfg=cfg)
+        rep.stat("hierarchy-orders", "order:redefined-class-of-the-same-name")
+        add_case(prog, outs, fnd, cfg, "hierarchy-orders")
     # stream 5 (enumeration): every class-level option at every explicit value (own / inherited / overriding the
     # base's) under every combination of the process-wide defaults, all operators
     k = 0
@@ -688,7 +758,10 @@ def run(rep, tier):
                 cfg = dict(cfg0)
                 kind = ["Structure", "ImmutableStructure", "FinalStructure"][k % 3] if shape[1] in ("own", "absent") else "Structure"
                 steps = gen_option_program(rnd, "o%d" % k, shape, kind)
-                prog, outs, fnd, _ = check_program(rnd, steps, rep, "class-options", 2, cfg=cfg)
+                # every third program: the process-wide defaults are switched AFTER the classes were made
+                cfg_use = dict(cfg, allow_none_for_optionals=not cfg["allow_none_for_optionals"]) if k % 3 == 2 else None
+                prog, outs, fnd, _ = check_program(rnd, steps, rep, "class-options", 2, cfg=cfg, cfg_use=cfg_use)
+                rep.stat("class-options", "defaults-switched-after-definition:%s" % bool(cfg_use))
                 rep.stat("class-options", "shape:%s/%s/%s" % shape)
                 rep.stat("class-options", "source-kind:" + kind)
                 add_case(prog, outs, fnd, cfg, "class-options")
@@ -756,15 +829,16 @@ def run(rep, tier):
              "distinct = distinct (operator, #names, outcome, source field set)" % (max_ops, n_vals + 1))
 
 
-def replay_direct(prog, cfg, d):
+def replay_direct(prog, cfg, d, cfg_use=None):
     """Re-executes the one recorded comparison (field, value, construction or assignment) on source and derived."""
+    ns = D.fresh_ns()
     with with_globals(cfg):
-        ns = D.fresh_ns()
         for st in prog:
             try:
                 exec(D.step_src(st), ns)
             except Exception as ex:  # noqa
                 print("  step %s raises %r" % (D.step_name(st), ex))
+    with with_globals(cfg_use or cfg):
         st = prog[d["step"]]
         S, Dc = ns.get(st[1]), ns.get(D.derived_name(st))
         if S is None or Dc is None:
@@ -793,13 +867,14 @@ def replay(obj):
         print(obj.get("detail", "no program recorded"))
         return 2
     cfg = obj.get("globals") or {}
+    cfg_use = obj.get("globals_use") or None
     rnd = random.Random(7)
     rep = core.Report("C12", "quick")
     bad = 0
-    print(program_text(prog, cfg)[len(D.IMPORTS):])
+    print(program_text(prog, cfg, cfg_use)[len(D.IMPORTS):])
     if obj.get("direct") and obj["direct"].get("step") is not None:
-        bad = replay_direct(prog, cfg, obj["direct"])
-    prog2, outs, findings, ns = check_program(rnd, prog, rep, "replay", 6, cfg=cfg)
+        bad = replay_direct(prog, cfg, obj["direct"], cfg_use)
+    prog2, outs, findings, ns = check_program(rnd, prog, rep, "replay", 6, cfg=cfg, cfg_use=cfg_use)
     for st, o in zip(prog2, outs):
         print(" ", D.step_name(st), "->", o[1] if o[0] != "mixin" else "mixin")
     for key, what, _ in findings:
